@@ -163,7 +163,8 @@ def _sanitize_bins(bins, units):
     # are expressed in the units of the data they bin
     def strip(edges, u):
         if hasattr(edges, "units"):
-            return edges.to_value(NULL_UNIT if u is None else u)
+            u = NULL_UNIT if u is None else u
+            return np.asarray(edges) if edges.units == u else edges.to_value(u)
         if isinstance(edges, (list, tuple)) and any(hasattr(e, "units") for e in edges):
             return [strip(e, u) for e in edges]
         return edges
@@ -930,6 +931,9 @@ def _values_in_units(values, units):
     # quantities found in values (possibly a nested list/tuple) are expressed in
     # units and stripped; plain numbers are taken to be in units already
     if hasattr(values, "units"):
+        if values.units == units:
+            # nothing to convert: keep the numbers (and their dtype) as they are
+            return np.asarray(values)
         return values.to_value(units)
     if isinstance(values, (list, tuple)):
         return type(values)(_values_in_units(v, units) for v in values)
